@@ -522,13 +522,27 @@ pub fn list_is_empty(bdd: &Rc<Bdd>, builder: &mut SemTypeContext) -> Result<IsEm
         }
     }
 
-    let is_empty = bdd_every_result(bdd, &None, &None, list_formula_is_empty, builder)?;
-    builder
-        .list_memo
-        .get_mut(bdd)
-        .expect("bdd should be cached by now")
-        .0 = MemoEmpty::from_bool(&is_empty);
-    Ok(is_empty)
+    builder.pending_empty_checks += 1;
+    let res = bdd_every_result(bdd, &None, &None, list_formula_is_empty, builder);
+    builder.pending_empty_checks -= 1;
+    match res {
+        // "empty" found while an enclosing check still assumes its own diagram empty is provisional:
+        // it may only be kept once that assumption is confirmed, so it is not memoised
+        Ok(IsEmptyStatus::IsEmpty) if builder.pending_empty_checks > 0 => {
+            builder.list_memo.remove(bdd);
+        }
+        Ok(is_empty) => {
+            builder
+                .list_memo
+                .get_mut(bdd)
+                .expect("bdd should be cached by now")
+                .0 = MemoEmpty::from_bool(&is_empty);
+        }
+        Err(_) => {
+            builder.list_memo.remove(bdd);
+        }
+    }
+    res
 }
 
 fn bdd_mapping_member_type_inner(
